@@ -4,6 +4,7 @@ CONSTANTS
   BlockSpots <- Spots3
   CidrOverlap <- TabOverlap
   CidrCovers <- TabCovers
+  MaxFail = 1
   Ties = TRUE
   SimLen = 24
 INIT GInit
